@@ -389,6 +389,37 @@ pub fn run(ctx: &Ctx, mode: Mode) -> Shard {
             }
         }
     }
+    // ---- 5e. directed: the root directory as a multi-page tree; every prefix / suffix / middle run of the
+    // top-level buckets deleted in one transaction
+    {
+        let mut idx = 0u64;
+        for n in [20usize, 36, 60, 300] {
+            let mut runs: Vec<(usize, usize)> = Vec::new();
+            if n <= 36 {
+                for p in 1..=n {
+                    runs.push((0, p)); // prefixes
+                    runs.push((n - p, n)); // suffixes
+                }
+                runs.push((n / 3, 2 * n / 3));
+            } else {
+                for p in [1, 17, 18, 34, n / 2, n - 17, n - 1, n] {
+                    runs.push((0, p));
+                    runs.push((n - p, n));
+                }
+            }
+            for (a, b) in runs {
+                idx += 1;
+                if idx % ctx.nshards != ctx.shard || mode == Mode::C07 || (!deep && n > 60) {
+                    continue;
+                }
+                let h = shape::root_dir_history(ps, n, a, b);
+                let path = scratch.fresh("rd");
+                let out = exec::run_history(&h, &cfg, &path);
+                let _ = std::fs::remove_file(&path);
+                absorb(&mut shard, ctx, mode, &h, &out, &mut total, "root-directory");
+            }
+        }
+    }
     // ---- 6. C07 only: iterations that are under way while the transaction mutates entries ahead of them
     if mode == Mode::C07 {
         crate::live::run(ctx, &mut shard);
